@@ -8,6 +8,7 @@ import (
 	"fmt"
 	"go/token"
 	"go/types"
+	"strings"
 
 	"golang.org/x/tools/go/ssa"
 )
@@ -55,6 +56,9 @@ func lowerBound(ins ssa.Instruction, v ssa.Value) (int64, bool) {
 	}
 	if init, ok := constInduction(v); ok {
 		set(init)
+	}
+	if k, ok := intrinsicLower(v); ok {
+		set(k)
 	}
 	blk := ins.Block()
 	for _, d := range ins.Parent().Blocks {
@@ -208,4 +212,24 @@ func addrRootField(v ssa.Value) (string, bool) {
 		}
 	}
 	return "", false
+}
+
+// intrinsicLower: a lower bound that holds by the definition of the value
+// (strings/bytes Index* return >= -1, len/cap >= 0, unsigned values >= 0).
+func intrinsicLower(v ssa.Value) (int64, bool) {
+	if b, ok := v.Type().Underlying().(*types.Basic); ok && b.Info()&types.IsUnsigned != 0 {
+		return 0, true
+	}
+	call, ok := v.(*ssa.Call)
+	if !ok {
+		return 0, false
+	}
+	n := calleeName(&call.Call)
+	switch {
+	case n == "builtin.len" || n == "builtin.cap":
+		return 0, true
+	case strings.HasPrefix(n, "strings.Index") || strings.HasPrefix(n, "strings.LastIndex") || strings.HasPrefix(n, "bytes.Index") || strings.HasPrefix(n, "bytes.LastIndex"):
+		return -1, true
+	}
+	return 0, false
 }
